@@ -50,7 +50,7 @@ Req(cmd, b, sy, e) == [cmd |-> cmd, b |-> b, sync |-> sy, e |-> e, v |-> 0]
 NoReq == Req("none", NoBar, FALSE, 0)
 
 BarInit == [exists |-> FALSE, total |-> 0, cur |-> 0, trig |-> FALSE, aborted |-> FALSE, rm |-> FALSE, nopop |-> FALSE,
-            sd |-> <<>>, rdk |-> 0, after |-> NoBar, shutdown |-> 0, ctx |-> FALSE, pc |-> "none", prio |-> 0,
+            sd |-> <<>>, ln |-> <<>>, rdk |-> 0, after |-> NoBar, shutdown |-> 0, ctx |-> FALSE, pc |-> "none", prio |-> 0,
             rg |-> "none", rd |-> "none", host |-> "none",
             frame |-> [has |-> FALSE, sd |-> 0, rm |-> FALSE, nopop |-> FALSE, err |-> FALSE],
             index |-> 0, fills |-> 0, pushed |-> FALSE]
@@ -89,6 +89,7 @@ Init0 ==
    written |-> 0,              \* text lines written so far
    accepted |-> 0,
    bwg   |-> 0, ctgone |-> FALSE,
+   lsn   |-> {},               \* OnShutdown goroutines that have been started and have not returned: <<bar, decorator>>
    ticks |-> 0,
    panic |-> "none"]
 
@@ -183,8 +184,11 @@ LsLabels(st) == CASE st.ls = "tick_gate" -> {<<"ls:tick", 0, 0, "">>} [] st.ls =
 ClLabels(st) == {<<"cl", c, 0, "">> : c \in {x \in Clients : st.cl[x].st = "gate"}}
                \cup {<<"pw:cancel", c, 0, "">> : c \in {x \in Clients : st.cl[x].st = "cancel_gate"}}
 
+(* user code: a shutdown listener takes its time (the harness parks it inside OnShutdown) *)
+UsLabels(st) == {<<"us:listen", p[1], 0, p[2]>> : p \in st.lsn}
+
 Parked(st) == ClLabels(st) \cup CtLabels(st) \cup HmLabels(st) \cup LsLabels(st) \cup BarLabels(st)
-              \cup DistLabels(st) \cup ErLabels(st) \cup DpLabels(st)
+              \cup DistLabels(st) \cup ErLabels(st) \cup DpLabels(st) \cup UsLabels(st)
 
 (* ---------------------------------------------------------------- release *)
 (* Passing a gate only makes the goroutine runnable; what it then does is in Micro. *)
@@ -212,6 +216,7 @@ Release(st, g) ==
     [] g[1] = "er:start"  -> [st EXCEPT !.er[g[3]].pc = "trav_send"]
     [] g[1] = "er:pump"   -> [st EXCEPT !.er[g[3]].pc = "pump_send"]
     [] g[1] = "dp:send"   -> [st EXCEPT !.dp[g[3]].pc = "send"]
+    [] g[1] = "us:listen" -> [st EXCEPT !.lsn = @ \ {<<g[2], g[4]>>}, !.bwg = @ - 1]
 
 (* ------------------------------------------------- micro steps (eager) *)
 (* Each operator returns the SET of states one deterministic or chosen move leads to; {} = cannot move. *)
@@ -505,7 +510,7 @@ Rendezvous(st) ==
   (IF st.ct.pc = "idle" THEN
       {LET op == Op(c, st) b == IF op.op = "add" THEN op.b ELSE st.nbars + 1
            B0 == [BarInit EXCEPT !.exists = TRUE, !.total = op.total, !.trig = (op.total > 0), !.rm = op.rm, !.nopop = op.nopop,
-                                 !.sd = op.sd, !.after = op.after, !.pc = "idle",
+                                 !.sd = op.sd, !.ln = op.ln, !.after = op.after, !.pc = "idle",
                                  !.prio = IF op.hasprio THEN op.prio ELSE b - 1, !.ctx = st.pctx]
            st1 == [st EXCEPT !.bar[b] = B0, !.nbars = b, !.bwg = @ + 1, !.ct.c = c]
        IN IF op.op = "prio"
@@ -569,7 +574,12 @@ Rendezvous(st) ==
                   THEN {[st EXCEPT !.bar[b].rg = "none", !.bar[b].pc = "busy", !.bar[b].host = "bar", !.bar[b].rd = "start"]} ELSE {})
             \cup (IF st.hm.pc = "sync_table" /\ st.hm.i <= Len(st.hm.order) /\ st.hm.order[st.hm.i] = b
                   THEN {[st EXCEPT !.hm.i = @ + 1, !.matrix = AddToMatrix(@, b, st.bar[b].sd, 1)]} ELSE {})
-            \cup (IF st.bar[b].ctx THEN {[st EXCEPT !.bar[b].pc = "exit_gate"]} ELSE {})
+            \* <-b.ctx.Done(): one goroutine per shutdown listener (bwg.Add(1) each, before the bar's own Done)
+            \cup (IF st.bar[b].ctx
+                  THEN {[st EXCEPT !.bar[b].pc = "exit_gate",
+                                   !.lsn = @ \cup {<<b, DecName(st.bar[b].ln[k])>> : k \in DOMAIN st.bar[b].ln},
+                                   !.bwg = @ + Len(st.bar[b].ln)]}
+                  ELSE {})
          ELSE {}) : b \in Bars}
   \* the width exchange
   \cup UNION {
@@ -640,7 +650,7 @@ Spec == Init /\ [][Next]_vars
 GateNames == {"cl", "pw:cancel", "ct:push", "ct:hm:sync", "ct:hm:iter", "ct:hm:state", "ct:hm:end", "ct:hm:fix", "ct:cancelbar",
               "ct:flush", "ct:io", "ct:drop", "ct:pcancel", "hm:req:push", "hm:req:sync", "hm:req:iter", "hm:req:state", "hm:req:end",
               "hm:req:fix", "hm:iter", "hm:pop", "ls:tick", "ls:done", "rg:start", "fmt:send", "bar:exit", "bar:cancel",
-              "dist:start", "dist:mid", "er:start", "er:pump", "dp:send"}
+              "dist:start", "dist:mid", "er:start", "er:pump", "dp:send", "us:listen"}
 AllGates == GateNames \X (0..NB) \X (0..4) \X {"", "p0", "p1", "a0", "a1"}
 StepG(g) == /\ g \in Parked(s) /\ s.panic = "none" /\ ~AllDone(s)
             /\ (IF g[1] = "cl" THEN Eligible(s, g[2]) ELSE TRUE)
@@ -649,6 +659,10 @@ StepG(g) == /\ g \in Parked(s) /\ s.panic = "none" /\ ~AllDone(s)
 FairSpec == Spec /\ WF_vars(Tick) /\ \A g \in AllGates : WF_vars(StepG(g))
 
 (* ------------------------------------------------------------- properties *)
+(* C14: Wait returns only after every shutdown listener that was started has returned *)
+WaitReturned(st, c) == \E i \in 1..(st.cl[c].pc - 1) : Prog[c][i].op = "wait"
+ListenersBeforeWait == \A c \in Clients : WaitReturned(s, c) => s.lsn = {}
+
 NoPanic == s.panic = "none"                                                    \* C02
 
 (* C01: a state in which nothing is parked, no tick can help and a call is still pending.  With the tick
